@@ -124,6 +124,26 @@ fn check_path(ctx: &Ctx, t: &Table, raw: &str, cn: &Cn, samples: &Samples) -> Ob
     o
 }
 
+/// Looks the paths up one after the other on one fresh router; each must equal the reference.
+fn check_sequence(ctx: &Ctx, paths: &[&str], cn: &Cn) {
+    let fresh = table();
+    let get = http::Method::GET;
+    for (k, p) in paths.iter().enumerate() {
+        cn.evals.fetch_add(1, Ordering::Relaxed);
+        let o = lookup(&fresh.router, &get, p, None);
+        let want = expected(&fresh, p);
+        if o != want {
+            ctx.report(Violation {
+                sig: json!({"kind": if k == 0 {"first_lookup_on_fresh_router_wrong"} else {"lookup_depends_on_earlier_requests"}, "position": k}),
+                case: json!({"kind":"sequence","seam":"lookup_route","paths": &paths[..=k]}),
+                expected: want.to_json(),
+                observed: o.to_json(),
+            });
+            return;
+        }
+    }
+}
+
 /// All spellings of `segs` with `mult[i]` slashes before segment i and `trail` after.
 fn spell(segs: &[&str], mult: &[usize], trail: usize) -> String {
     let mut s = String::new();
@@ -178,6 +198,11 @@ fn main() {
         Ctx::replay_and_exit(&args, level, "E2", |ctx, case| {
             let t = table();
             let cn = new_cn();
+            if let Some(ps) = case["paths"].as_array() {
+                let v: Vec<&str> = ps.iter().map(|p| p.as_str().unwrap()).collect();
+                check_sequence(ctx, &v, &cn);
+                return;
+            }
             check_path(ctx, &t, case["path"].as_str().unwrap(), &cn, &Samples::new(0));
         });
     }
@@ -287,6 +312,42 @@ fn main() {
         }
     }
 
+    // ---- 2b. request sequences on one router: "each segment is decoded exactly once" and "an encoded
+    // slash never creates or crosses a boundary" must hold whatever was looked up before. Every
+    // ordered pair (thorough: also every ordered triple of the 2-atom set) of a focused alphabet
+    // whose members collide under naive canonicalisations (real vs encoded slash, hex case,
+    // repeated slashes), each sequence on a FRESH router, every lookup against the reference.
+    let f_atoms = ["a", "b", "a%2fb", "a%2Fb", "%2f", "a%2f", "%2fb"];
+    let mut focus: Vec<String> = vec![];
+    for pre in ["/v", "/w", "/lit"] {
+        focus.push(pre.to_string());
+        for a in f_atoms {
+            focus.push(format!("{pre}/{a}"));
+            for b in f_atoms {
+                focus.push(format!("{pre}/{a}/{b}"));
+                if ctx.tier == Tier::Thorough {
+                    for c in f_atoms {
+                        focus.push(format!("{pre}/{a}/{b}/{c}"));
+                    }
+                }
+            }
+        }
+        focus.push(format!("{pre}//a///b/"));
+    }
+    let nf = focus.len();
+    let seq_pairs = AtomicU64::new(0);
+    par_for(nf * nf, ncpu(), ctx.seed, |i| {
+        if ctx.elapsed() > ctx.tier.pick(30.0, 1500.0) {
+            return;
+        }
+        let (p1, p2) = (&focus[i / nf], &focus[i % nf]);
+        check_sequence(&ctx, &[p1.as_str(), p2.as_str(), p1.as_str()], &cn);
+        seq_pairs.fetch_add(1, Ordering::Relaxed);
+    });
+    if (seq_pairs.load(Ordering::Relaxed) as usize) < nf * nf {
+        caps.push(format!("sequence layer: wall cap hit after {} of {} ordered pairs", seq_pairs.load(Ordering::Relaxed), nf * nf));
+    }
+
     // ---- 3. live slice: what the handler receives after the Path extractor
     let mut live_paths: Vec<String> = vec![];
     for pre in ["/v", "/w"] {
@@ -315,6 +376,7 @@ fn main() {
         "atoms": atoms, "sequence_depth": depth, "prefixes": ["/", "/lit", "/v", "/w"],
         "slash_variants": cn.slash_variants.load(Ordering::Relaxed),
         "three_byte_forms": three,
+        "sequence_layer": {"focused_paths": nf, "ordered_pairs_each_on_a_fresh_router": seq_pairs.load(Ordering::Relaxed), "lookups_per_sequence": 3},
         "outcomes": {"dispatched": cn.dispatched.load(Ordering::Relaxed), "refused_400": cn.refused.load(Ordering::Relaxed), "other_status": cn.notfound.load(Ordering::Relaxed)},
         "caps_hit": caps, "exhaustive": caps.is_empty(),
         "samples": samples.take(),
